@@ -215,6 +215,10 @@ func c14Partitions(p *load.Program, r *oblig.Report) {
 			ok = false
 		}
 	})
+	// every listed partition is examined: the loop over the listing ends by exhaustion only
+	early := loopEarlyExits(p, fn)
+	r.Check(len(early) == 0, rule, "kafka.findPartitions examines the whole listing, in whatever order topics appear in it", p.Pos(fn.Pos()),
+		"the range loop has no break or return", strings.Join(early, "; "))
 	shapes := returnShapes(fn)
 	r.Check(ok && nApp == 1, rule, "kafka.findPartitions returns the IDs of exactly the partitions whose Topic is the requested one", p.Pos(fn.Pos()),
 		"for _, x := range partitions { if x.Topic == topic { ids = append(ids, x.ID) } }", strings.TrimSpace(found)+fmt.Sprintf(" appends=%d returns=%v", nApp, shapes))
@@ -835,4 +839,60 @@ func zeroTestOf(c string, isVal func(string) bool) bool {
 		}
 	}
 	return false
+}
+
+// loopEarlyExits lists the edges that leave a loop of fn from a block other than the loop's header test (break,
+// return, goto out of the body).
+func loopEarlyExits(p *load.Program, fn *ssa.Function) []string {
+	blocks := an.Blocks(fn)
+	reach := func(from, to *ssa.BasicBlock) bool {
+		seen := map[*ssa.BasicBlock]bool{}
+		var walk func(b *ssa.BasicBlock) bool
+		walk = func(b *ssa.BasicBlock) bool {
+			for _, s := range b.Succs {
+				if s == to {
+					return true
+				}
+				if !seen[s] {
+					seen[s] = true
+					if walk(s) {
+						return true
+					}
+				}
+			}
+			return false
+		}
+		return walk(from)
+	}
+	inCycle := map[*ssa.BasicBlock]bool{}
+	for _, b := range blocks {
+		if b.Parent() == fn && reach(b, b) {
+			inCycle[b] = true
+		}
+	}
+	var out []string
+	for b := range inCycle {
+		// the header of b's loop: the cycle block that dominates b and is reachable back from b, outermost first is
+		// not needed here: an exit edge is early unless its source dominates every block of its own cycle
+		isHeader := true
+		for c := range inCycle {
+			if c != b && reach(b, c) && reach(c, b) && !b.Dominates(c) {
+				isHeader = false
+			}
+		}
+		if isHeader {
+			continue
+		}
+		for _, s2 := range b.Succs {
+			if !(inCycle[s2] && reach(s2, b)) {
+				pos := "-"
+				if len(b.Instrs) > 0 {
+					pos = p.Pos(b.Instrs[len(b.Instrs)-1].Pos())
+				}
+				out = append(out, "the loop is left from its body at "+pos)
+			}
+		}
+	}
+	sort.Strings(out)
+	return out
 }
